@@ -103,6 +103,7 @@ func prop(t *rapid.T) {
 	// global middleware is not counted by the registration-time limit: chains of 64 and more handlers are legal (up to
 	// the 127 an int8 cursor can count) and - without aborts, which this check's scripts never do - run like any other
 	pm.MaxChain = 120
+	w.CancelEvery = 3 // every third request arrives with a cancelled context: the chain runs all the same
 	reqs := chain.Requests(t, pm, rapid.IntRange(1, 3).Draw(t, "extraProbes"))
 	// "global middleware in Use order, including those added after the route was registered": sometimes one more
 	// global Use arrives after the first round of requests; the second round must run it everywhere
